@@ -215,7 +215,10 @@ func unmarshalCapability(a *api.Capability) (bgp.ParameterCapabilityInterface, e
 			if t.Flags&0x80 > 0 {
 				forward = true
 			}
-			tuples = append(tuples, bgp.NewCapGracefulRestartTuple(ToFamily(t.Family), forward))
+			tuple := bgp.NewCapGracefulRestartTuple(ToFamily(t.Family), forward)
+			// keep the bits the constructor has no parameter for
+			tuple.Flags = uint8(t.Flags)
+			tuples = append(tuples, tuple)
 		}
 		var restarting bool
 		if a.Flags&0x08 > 0 {
@@ -225,7 +228,9 @@ func unmarshalCapability(a *api.Capability) (bgp.ParameterCapabilityInterface, e
 		if a.Flags&0x04 > 0 {
 			notification = true
 		}
-		return bgp.NewCapGracefulRestart(restarting, notification, uint16(a.Time), tuples), nil
+		c := bgp.NewCapGracefulRestart(restarting, notification, uint16(a.Time), tuples)
+		c.Flags = uint8(a.Flags & 0x0f)
+		return c, nil
 	case *api.Capability_FourOctetAsn:
 		a := cap.FourOctetAsn
 		return bgp.NewCapFourOctetASNumber(a.Asn), nil
@@ -246,7 +251,9 @@ func unmarshalCapability(a *api.Capability) (bgp.ParameterCapabilityInterface, e
 			if t.Flags&0x80 > 0 {
 				forward = true
 			}
-			tuples = append(tuples, bgp.NewCapLongLivedGracefulRestartTuple(ToFamily(t.Family), forward, t.Time))
+			tuple := bgp.NewCapLongLivedGracefulRestartTuple(ToFamily(t.Family), forward, t.Time)
+			tuple.Flags = uint8(t.Flags)
+			tuples = append(tuples, tuple)
 		}
 		return bgp.NewCapLongLivedGracefulRestart(tuples), nil
 	case *api.Capability_RouteRefreshCisco:
